@@ -46,7 +46,8 @@ RESULTS = {
     "C17-union-find-path-halving-returns-grandparent": ("C17", [("C17", "quick", "UNDECIDED", "first run: find was rewritten (iterative path halving): the anchors of the inserted Verus proof are gone, exit 2"),
                                                                 ("C17", "quick", "VIOLATION", "kani vk_uf (bounded twin over a SecondaryMap contract double, added because of this seed) harness::uf_same_set_is_closure_n3 / uf_find_is_canonical_n3 / uf_union_keeps_first_representative_n3 (7 violations, with replayed inputs); the Verus unit still reports undecided")]),
     "C17-subgraph-merge-window-excludes-start": ("C17", [("C17", "quick", "missed", "SubgraphMerge::try_merge is in the part of C17 the claim lists as NOT covered")]),
-    "C10-counted-hash-set-eq-ignores-counts": ("C10", [("C10", "quick", "missed", "VariadicCountedHashSet is hashbrown-backed: outside CBMC's reach, documented as not covered (DESIGN.md section 5, C10)")]),
+    "C10-counted-hash-set-eq-ignores-counts": ("C10", [("C10", "quick", "missed", "first rounds: VariadicCountedHashSet is hashbrown-backed, outside CBMC's reach beyond one tuple; quick still misses it (the equality harness takes 5-9 min)"),
+                                                       ("C10", "thorough", "VIOLATION", "kani vk_var (variadic_collections.rs extracted over a hashbrown contract double, added later) extracted::hash_harness::slow_counted_set_eq_is_multiset_equality clause C10:counted_set_equality_is_multiset_equality")]),
 }
 EXTRA = '/verif/seeded/results_extra.json'
 if os.path.exists(EXTRA):
